@@ -8,6 +8,7 @@ Rust subset for a setter body (whitespace-insensitive, `<cfg>` is `self.config`,
     <cfg>.FIELD = false;           -> .setFalse FIELD
     <cfg>.FIELD = !ARG;            -> .setNotArg FIELD
     if ARG { <cfg>.FIELD = true; } -> .setTrueIfArg FIELD
+    <cfg>.FIELD |= ARG;            -> .setTrueIfArg FIELD
     if ARG == 0 { panic!("{}", MSG); }                       -> .failIfZero MSG
     if ARG < 1 { return Err(JsValue::from(MSG)); }           -> .failIfZero MSG
     if ARG <= 0 { Err(PyValueError::new_err(MSG)) } else { <assign>; Ok(self_) }  -> .failIfNonPos MSG, assign
@@ -105,6 +106,14 @@ def parse_setter(t, where, name, params, body, cfg_re, self_names):
     final_ok = "|".join(re.escape(x) for x in self_names)
 
     def assign(text):
+        mm = re.fullmatch(cfg_re + r"\s*\.\s*(\w+) \|= (\w+)", norm(text))
+        if mm:
+            # FIELD |= ARG  is  if ARG { FIELD = true; }
+            if mm.group(1) not in FIELDS:
+                raise t.TranslateError(f"{where}: fn {name}: unknown config field {mm.group(1)}")
+            if mm.group(2) != arg_name or arg_kind != "bool":
+                raise t.TranslateError(f"{where}: fn {name}: right-hand side of |= is not the boolean argument")
+            return f".setTrueIfArg .{FIELDS[mm.group(1)]}"
         mm = re.fullmatch(cfg_re + r"\s*\.\s*(\w+) = (true|!\s*\w+|\w+|\w+ as u32)", norm(text))
         if not mm:
             raise t.TranslateError(f"{where}: fn {name}: unsupported statement {text!r}")
